@@ -872,6 +872,12 @@ func appendResourceSpecIfMissed(object metav1.Object, state *preFilterState, nod
 		resourceSpec.PreferredCPUBindPolicy = extension.CPUBindPolicy(cpuBindPolicy)
 		shouldWriteBack = true
 	}
+	// The annotation written here is what the pod event handler rebuilds PodAllocation.CPUExclusivePolicy from
+	// after a restart. For a Reservation the policy may only be in the pod template, and the object-level
+	// annotation written below shadows the template's (NewReservePod): keep the applied policy in it.
+	if shouldWriteBack && resourceSpec.PreferredCPUExclusivePolicy == "" {
+		resourceSpec.PreferredCPUExclusivePolicy = state.preferredCPUExclusivePolicy
+	}
 	if !shouldWriteBack {
 		return nil
 	}
